@@ -1,15 +1,20 @@
 """C20, last clause: "a request is refused only if no setting inside those ranges satisfies it" - proved for ALL requests.
 Engine E3 (symx/loopcut variant, symbolic REALS as in C20_clocks.py) with a second loop rule, implemented by the AST rewriter
-`Exhaust` of this module (vf/loopcut.py is not changed):
+`Exhaust` of this module (vf/loopcut.py is not changed).
 
 Theorem per helper (obligation `ens.complete`): let W = (D*, M*, d*_0 .. d*_{n-1}) be RIGID symbolic constants that are members of the
-ranges the class declares and satisfy the property's own side conditions (VCO window with the helper's vco_margin convention,
-phase-detector window where the class declares one, per output |f_out - f| <= f*m with f_out recomputed from W).  Then the real
-`compute_config`, run on the symbolic request, does NOT reach `raise ValueError`.
+ranges the class DECLARES (its range tuples, read as range()/clkdiv_range would) and satisfy the property's own side conditions (VCO
+window with the helper's vco_margin convention, phase-detector window where the class declares one, per output |f_out - f| <= f*m
+with f_out recomputed from W).  Then the real `compute_config`, run on the symbolic request, does NOT reach `raise ValueError`.
 
-Loop rule for `for x in R: B` (R is evaluated by the real code and materialised; sound for every loop that has no `else:` clause):
- (a) some iteration leaves (break/return): the variables that non-leaving iterations assign are havocked, x is an ARBITRARY element
-     of the real R, B runs once; only paths that leave continue (falling off the end / `continue` ends the path) - as in loopcut.Cutter;
+Loop rule for `for x in R: B` (R is evaluated by the real code and materialised - a mutated iterable that skips elements is seen;
+loops with an `else:` clause and `while` loops are reported as unsupported):
+ (a) some iteration leaves (break/return/raise): the variables that non-leaving iterations assign are havocked, x is an ARBITRARY
+     element of the real R, B runs once; only paths that leave continue (falling off the end / `continue` ends the path) - as in
+     loopcut.Cutter.  Ordered search: the iterations BEFORE the leaving one did not leave, so if the witness is an element of R that
+     comes strictly before x, the witness iteration of (b) is run first and its facts are kept (an early `break` that is a valid
+     optimisation stays provable, one that cuts off the witness does not).  Loops whose iterations can leave only by `return` end the
+     call with a configuration and cannot contribute a refusal: their arm (a) is not explored here (C20_clocks*.py explore it).
  (b) R is exhausted: B ran WITHOUT leaving for EVERY element of R, in particular for the witness element if it is a member of the
      real R (membership is a branch condition: if it is not implied, the not-a-member branch learns nothing).  The variables that
      non-leaving iterations assign are havocked (unknown state before that iteration), x := witness, B runs; a path on which B leaves
@@ -17,12 +22,25 @@ Loop rule for `for x in R: B` (R is evaluated by the real code and materialised;
      variables are havocked again (state after the last iteration).
  Frame: "variables that non-leaving iterations assign" is computed mechanically from the current source (`_nl_assigned`): every name
  bound by a statement that is not inside a block which certainly leaves (block ends with break/return/raise and contains no
- `continue` of this loop).  A havocked scalar is a POISON value (any use is reported as `unsupported`, never silently wrong); a
- havocked dict only answers for keys written after the havoc.  Nested loops compose (inner loops are rewritten first and copied into
- both arms).  `ens.complete` = exploration finished and no feasible path reaches `raise ValueError`.
-Vacuity guards (`cover.*`): the witness assumption set is satisfiable; every witness iteration was entered; paths were dropped by the
-exhaustion rule; WITHOUT the witness facts the same rewritten function does reach `raise ValueError`; a returning path exists.
-A bounded cross-check (random requests, independent brute-force search, real class under plain CPython) is kept, labelled bounded."""
+ `continue` of this loop; inside nested loops only return/raise count).  A havocked scalar is a POISON value (any use is reported as
+ `unsupported`, never silently wrong); a havocked dict only answers for keys written after the havoc.  Nested loops compose (inner
+ loops are rewritten first and copied into the arms).
+ Best-of searches (Intel, Gowin: no iteration leaves, candidates are collected, refusal iff the collection is empty) need facts that
+ survive the later iterations.  They are declared per helper and CHECKED: the candidate collection is only appended to / stored into
+ inside the loops (`_only_grows`: then "non-empty" survives every havoc: GrowList/GrowDict); Intel's `clk_valid` is only written by
+ `clk_valid[..] = True` in the divider loop (`_only_true_stores`: True entries survive) and the divider loop has the invariant
+ "best_diff is float('inf') or clk_valid[_n]" (obligations inv[c].init / inv[c].step, the step from an arbitrary invariant state).
+ `ens.complete` = exploration finished, nothing unsupported, and no feasible path reaches `raise ValueError`.
+Builtins on proxies go through contracts (math.gcd/ceil/floor/trunc/isclose, int, round, float, pow, len, range; min/max/abs work on
+the proxies directly), so a changed tree gives a failed or proved obligation, not a harness crash; any other exception of the explored
+code is replayed natively and otherwise reported as undecided.
+Vacuity guards (`cover.*`): the witness assumption set is satisfiable; every witness iteration was entered on a satisfiable path;
+paths were dropped by the exhaustion rule (first-fit) / the code got past its refusal point (best-of); WITHOUT the witness facts the
+same rewritten function does reach `raise ValueError`.
+Counter-models are replayed on the real class under plain CPython together with an independent exact (rational) exhaustive search:
+`violated` only if the real function refuses a concrete request for which the search finds a setting (the model's request, then the
+request that has the model's witness as exact solution, up to 6 models per failing path); otherwise `failed-no-input`.
+Bounded cross-checks (random and PLANTED requests, independent search, real classes) are kept, labelled bounded."""
 import ast, copy, inspect, textwrap, time, math, random, os, sys, logging, fractions, z3
 from vf import elab
 from vf import symx
@@ -719,7 +737,7 @@ def prove_complete(label, setup, fn_real, spec_keys, replay=None, extra_globals=
     return out
 
 # ------------------------------------------------------------------------------------------------------------ Xilinx
-XIL = {"S7PLL": xilinx_s7.S7PLL, "S7MMCM": xilinx_s7.S7MMCM, "S6PLL": xilinx_s6.S6PLL, "USPLL": xilinx_us.USPLL, "USMMCM": xilinx_us.USMMCM, "USPPLL": xilinx_usp.USPPLL}
+XIL = {"S7PLL": xilinx_s7.S7PLL, "S7MMCM": xilinx_s7.S7MMCM, "S6PLL": xilinx_s6.S6PLL, "USPLL": xilinx_us.USPLL, "USMMCM": xilinx_us.USMMCM, "USPPLL": xilinx_usp.USPPLL, "S6DCM": xilinx_s6.S6DCM}
 
 def _xil_ranges(pll, n):
     rs = [tuple(pll.clkout_divide_range)]
@@ -849,7 +867,7 @@ def c_xilinx_bounded(seed=0):
             pll, cfg = _xil_native(cls, sg, fin, outs, 0)
             if cfg is None:
                 refused += 1; bad.append((clsname, sg, fin, outs, "refused although the planted setting satisfies it", dict(D=D, M=M, d=ds)))
-    return dict(results=[res("ens.complete[Xilinx, 6 classes x (8 random + 40 planted requests)]", "bounded", BOUNDED_OK if not bad else VIOLATED, time.time() - t0, "independent exact search / planted settings",
+    return dict(results=[res("ens.complete[Xilinx, 7 classes x (8 random + 40 planted requests)]", "bounded", BOUNDED_OK if not bad else VIOLATED, time.time() - t0, "independent exact search / planted settings",
                              evaluations=evals, planted=planted, refused=refused, info=str(bad[:2])[:900])],
                 functions=[], samples=[dict(bounded="completeness cross-check", evaluations=evals, refused=refused)])
 
@@ -1263,7 +1281,7 @@ def cases(tier):
     cs = [Case("S7PLL(-1,1).complete", c_xilinx, "S7PLL", -1, 1), Case("S7PLL(-1,2).complete", c_xilinx, "S7PLL", -1, 2),
           Case("S7MMCM(-2,2).complete", c_xilinx, "S7MMCM", -2, 2), Case("S6PLL(-1,2).complete", c_xilinx, "S6PLL", -1, 2),
           Case("USPLL(-1,2).complete", c_xilinx, "USPLL", -1, 2), Case("USMMCM(-2,2).complete", c_xilinx, "USMMCM", -2, 2),
-          Case("USPPLL(-1,2).complete", c_xilinx, "USPPLL", -1, 2),
+          Case("USPPLL(-1,2).complete", c_xilinx, "USPPLL", -1, 2), Case("S6DCM(-1,1).complete", c_xilinx, "S6DCM", -1, 1),
           Case("Xilinx.complete(bounded)", c_xilinx_bounded),
           Case("iCE40PLL.complete", c_ice40), Case("NXPLL(1).complete", c_nx, 1), Case("NXPLL(2).complete", c_nx, 2),
           Case("ECP5PLL(1).complete", c_ecp5, 1), Case("ECP5PLL(2).complete", c_ecp5, 2), Case("ECP5PLL(4 outputs).native", c_ecp5_native_findings),
@@ -1271,11 +1289,25 @@ def cases(tier):
           Case("GW1NPLL(GW1N).complete", c_gw1n, "GW1N", False), Case("GW1NPLL(GW1NS).complete", c_gw1n, "GW1NS", False), Case("GW2APLL(GW2A).complete", c_gw1n, "GW2A", False),
           Case("GW1NPLL(GW1N,1..64).complete", c_gw1n, "GW1N", True), Case("GW1NPLL.native", c_gw1n_native_findings),
           Case("planted(bounded)", c_planted),
-          Case("CycloneIVPLL(-6,1).complete", c_intel, "CycloneIVPLL", "-6", 1), Case("CycloneIVPLL(-6,2).complete", c_intel, "CycloneIVPLL", "-6", 2)]
+          Case("CycloneIVPLL(-6,1).complete", c_intel, "CycloneIVPLL", "-6", 1), Case("Cyclone10LPPLL(-I8,1).complete", c_intel, "Cyclone10LPPLL", "-I8", 1),
+          Case("Max10PLL(-6,1).complete", c_intel, "Max10PLL", "-6", 1)]
     if tier == "thorough":
         cs += [Case("ECP5PLL(3).complete", c_ecp5, 3, timeout=1800), Case("ECP5PLL(4,fb0).complete", c_ecp5_full, "fb0", timeout=3600),
                Case("ECP5PLL(4,first).complete", c_ecp5_full, "first", timeout=3600), Case("ECP5PLL(4,nonfirst).complete", c_ecp5_full, "nonfirst", timeout=3600),
-               Case("S7MMCM(-1,3).complete", c_xilinx, "S7MMCM", -1, 3, timeout=1800)]
+               Case("S7MMCM(-1,3).complete", c_xilinx, "S7MMCM", -1, 3, timeout=1800), Case("CycloneIVPLL(-6,2).complete", c_intel, "CycloneIVPLL", "-6", 2, timeout=3600),
+               Case("CycloneVPLL(-C6,1).complete", c_intel, "CycloneVPLL", "-C6", 1, timeout=1800), Case("StratixVPLL(-C1,1).complete", c_intel, "StratixVPLL", "-C1", 1, timeout=1800)]
     return cs
 
-ASSUMPTIONS = []
+M_ = MODP
+FUNCTIONS = [M_ + "xilinx_common.XilinxClocking.compute_config", M_ + "lattice_ice40.iCE40PLL.compute_config", M_ + "lattice_nx.NXPLL.compute_config",
+             M_ + "lattice_ecp5.ECP5PLL.compute_config", M_ + "intel_common.IntelClocking.compute_config", M_ + "gowin_gw1n.GW1NPLL.compute_config (search part)",
+             M_ + "common.clkdiv_range (real generator, materialised at every cut loop)"]
+ASSUMPTIONS = [
+    "C20 complete: floats are treated as real arithmetic (rounding at margin/window boundaries is not modelled); requests: input frequency > 0, output frequencies > 0, margins >= 0 (no other restriction: the input-frequency ranges of the classes are NOT assumed); phase 0; Xilinx vco_margin = 0 (one case with a symbolic vco_margin in [0, 1))",
+    "C20 complete: 'setting inside those ranges' = members of the range tuples the class declares (range()/clkdiv_range reading: start + k*step < stop; MMCM CLKOUT0 may use clkout_divide_range or clkout0_divide_range, i.e. 1..128 step 1/8 for S7MMCM as declared), VCO inside vco_freq_range shrunk by vco_margin exactly as the helper tests it (min*(1+vco_margin) <= f_vco <= max*(1-vco_margin)), phase detector inside the declared window where the helper declares AND tests one (ECP5 pfd_freq_range, Intel clkin_pfd_freq_range, Gowin pfd_freq_range; iCE40 and NXPLL test none: the theorem holds without it), each output |f_vco/d - f| <= f*m",
+    "C20 complete: ECP5PLL with 1..3 outputs (a spare output closes the feedback loop); with all 4 outputs the theorem is proved only for feedback through output 1..3 whose witness divider is the smallest one inside its margin - the two complementary situations are genuine refusals (finding clauses, native replay tools/replay_c20_ecp5_four_outputs.py)",
+    "C20 complete: Gowin GW1NPLL/GW2APLL: one output, the SEARCH part only (refusal 'No PLL config found'); idiv/fdiv witness in 1..63 as the helper iterates (1..64 is the listed finding fdiv64); ODIV_SEL list [2,4,8,16,32,48,64,80,96,112,128]; the code after the search refuses further requests (finding: final margin test on the obtained frequency, native replay tools/replay_c20_gw1n_final_margin.py)",
+    "C20 complete: loop rule assumptions: logging/compute_config_log/geometric_mean have no effect on the search (compute_config_log is a no-op, geometric_mean returns some real); no aliasing of the havocked containers; identity tests (`is`) on havocked scalars are not trapped; iterations that can leave only by `return` are not explored for exceptions (done by C20_clocks*.py); a solver 'unknown' on a path-feasibility query keeps the path; obligations are decided by separate queries (60 s, then the z3-4.8.12/cvc5 portfolio), 'unknown' is reported as undecided",
+    "C20 complete: not covered by a proof: USPMMCM (own fractional search), GW5APLL (divider chosen by round(): not a search over a range), TRIONPLL/TITANIUMPLL, GateMatePLL; Intel with 2 outputs only in the thorough tier (about 6 min)",
+]
+
